@@ -853,9 +853,289 @@ def connect_case(run, world, model, case):
     run.compare('C08.maybe_verify over a store built by the validating connect', case, obs, mod)
 
 
+# ------------------------------------------------------------------------------------------------
+# restart: the header file is damaged between two runs (a stored header's merkle root replaced by the
+# root of a forged block), Headers.open() re-validates (repair), then the forged proof is offered
+# ------------------------------------------------------------------------------------------------
+def restart_cases(rng, thorough):
+    n = rng.choice([1, 2, 3, 5, 8])
+    seed = rng.randrange(10 ** 9)
+    raws = make_block(n, seed)                              # the forged block
+    leaves = [H(r) for r in raws]
+    levels = ref_levels(leaves)
+    forged_root = levels[-1][0]
+    gn, gseed = rng.choice([1, 2, 4]), rng.randrange(10 ** 9)
+    graws = make_block(gn, gseed)                           # a real block, carried by a header below the damage
+    glevels = ref_levels([H(r) for r in graws])
+    L = rng.randrange(4, 40)
+    # the damaged header: never the tip -- damage to the last stored header is only detectable through a successor
+    # (DESIGN section 7, C07 reading: it is healed by the next connect, not by open)
+    j = rng.randrange(2, L - 1)
+    g = rng.randrange(1, j)
+    chain = []
+    for i in range(L):
+        chain.append(mine_header(rng, chain, glevels[-1][0] if i == g else rng.randbytes(32)))
+    base = {'chain': [x.hex() for x in chain], 'alter': j, 'forged_root': forged_root.hex(),
+            'stray': rng.choice([rng.randrange(1, 112), 1, 111, 50]), 'net': {}}
+    idx = rng.randrange(n)
+    yield dict(base, kind='restart:forged-root', n=n, block_seed=seed, idx=idx, raw=raws[idx].hex(), height=j,
+               arg={'block_height': j, 'merkle': text_elems(ref_branch(levels, idx)), 'pos': idx})
+    gi = rng.randrange(gn)
+    yield dict(base, kind='restart:genuine-below-damage', n=gn, block_seed=gseed, idx=gi, raw=graws[gi].hex(), height=g,
+               arg={'block_height': g, 'merkle': text_elems(ref_branch(glevels, gi)), 'pos': gi})
+
+
+def restart_case(run, world, model, case):
+    import tempfile
+    import shutil
+    chain = [bytes.fromhex(x) for x in case['chain']]
+    j, h = case['alter'], case['height']
+    run.case(case, nontrivial=True)
+    run.count('kind:' + case['kind'])
+    sig = {'kind': case['kind'], 'alter': j, 'height': h, 'len': len(chain), 'stray': case['stray']}
+    key = ('restart', case['chain'][-1], j, case['forged_root'], case['stray'])
+    hit = world.cache.get(key)
+    if hit is None:
+        cls = type('PowHdG', (PowHd,), {'genesis_hash': binascii.hexlify(H(chain[0])[::-1])})
+        tmp = tempfile.mkdtemp(prefix='c08_')
+        try:
+            path = os.path.join(tmp, 'headers')
+            hd = cls(path)
+            world.loop.run_until_complete(hd.open())
+            added = world.loop.run_until_complete(hd.connect(0, b''.join(chain)))
+            world.loop.run_until_complete(hd.close())
+            with open(path, 'r+b') as f:                      # while the wallet is down
+                f.seek(j * 112 + 36)
+                f.write(bytes.fromhex(case['forged_root']))
+                f.seek(0, os.SEEK_END)
+                f.write(b'\x01' * case['stray'])              # a half written header: the full repair runs
+            hd2 = cls(path)
+            world.loop.run_until_complete(hd2.open())
+            stored = [hd2._read(i) for i in range(len(hd2))]
+            ledger = Ledger({'db': Database(':memory:'), 'headers': hd2})
+        finally:
+            shutil.rmtree(tmp, ignore_errors=True)
+        hit = world.cache[key] = (ledger, added, stored)
+    ledger, added, stored = hit
+    if added != len(chain):
+        run.disagreement('C08.restart', case, f'valid chain: {added} of {len(chain)} stored', None)
+        return
+    raw = bytes.fromhex(case['raw'])
+    tx = Transaction(raw)
+    ledger.network = FakeNetwork({})
+    try:
+        ret = world.loop.run_until_complete(ledger.maybe_verify_transaction(tx, h, decode_arg(case['arg'])))
+        outcome = 'tx' if ret is tx else 'none' if ret is None else 'other'
+    except Exception as e:
+        outcome = type(e).__name__
+    obs = {'height': tx.height, 'position': tx.position, 'verified': tx.is_verified, 'outcome': outcome, 'fetched': False}
+    decoded = [strict_unhex(e['s'])[::-1] for e in case['arg']['merkle']]
+    folds_validated = 0 <= h < len(chain) and ref_check(decoded, case['arg']['pos'], H(raw), chain[h][36:68])
+    if tx.is_verified and not folds_validated:
+        run.violation(case, f'verified at height {h} after a restart, but the proof does not lead to the header the node '
+                            f'validated for that height (the stored header {h} was altered on disk and survived '
+                            f'Headers.open)', signature=sig)
+        return
+    if not tx.is_verified and folds_validated and 0 < h < len(stored) and stored[h] == chain[h]:
+        run.violation(case, f'genuine proof to the intact, re-validated header {h} was not accepted after the restart',
+                      signature=sig)
+        return
+    unvalidated = [i for i, x in enumerate(stored) if i >= len(chain) or x != chain[i]]
+    if unvalidated:
+        run.disagreement('C08.restart: header store serves headers the node never validated', case, unvalidated, [])
+        return
+    mod = model.call('maybe_verify', headers=[x.hex() for x in stored], st={'height': -2, 'position': -1, 'verified': False},
+                     raw=case['raw'], height=h, arg=model_resp(case['arg']), net={})
+    run.compare('C08.maybe_verify over a re-opened header file', case, obs, mod)
+
+
+# ------------------------------------------------------------------------------------------------
+# the cache around maybe_verify_transaction: Ledger.request_transactions(cached=True) + update_headers
+# ------------------------------------------------------------------------------------------------
+class SyncNetwork:
+    def __init__(self):
+        self.chain = []            # the server's current chain (raw headers)
+        self.answers = {}          # txid -> (raw hex, merkle dict)
+        self.batches = []
+        from lbry.wallet.stream import StreamController
+        self.on_header = StreamController().stream
+        self.on_status = StreamController().stream
+
+    def retriable_call(self, function, *args, **kwargs):
+        return function(*args, **kwargs)
+
+    async def get_headers(self, height, count=10000, b64=False):
+        part = self.chain[height:height + count]
+        return {'count': len(part), 'hex': binascii.hexlify(b''.join(part)).decode()}
+
+    async def get_transaction_batch(self, txids, restricted=True):
+        self.batches.append(list(txids))
+        return {txid: self.answers[txid] for txid in txids}
+
+    async def get_merkle(self, txid, height):
+        return self.answers[txid][1]
+
+
+def link_headers(prefix, roots, salt):
+    out = list(prefix)
+    for root in roots:
+        prev = binascii.hexlify(H(out[-1])[::-1]) if out else b'0' * 64
+        out.append(Headers.serialize({
+            'version': 1, 'prev_block_hash': prev, 'merkle_root': binascii.hexlify(root[::-1]),
+            'claim_trie_root': b'0' * 64, 'timestamp': 1500000000 + 150 * len(out), 'bits': 0x207fffff,
+            'nonce': (salt * 1000 + len(out)) % 2 ** 32}))
+    return out
+
+
+def cache_scenario(seed):
+    """deterministic script: server chain, transactions watched, and a list of steps
+    ('grow' k | 'switch' fork | 'sync' | 'request' [(txid, height)])"""
+    rng = random.Random(f'cache:{seed}')
+    blocks = {}                                             # root -> (raws, levels)
+
+    def new_root():
+        n = rng.choice([1, 2, 3, 4, 5])
+        raws = make_block(n, rng.randrange(10 ** 9))
+        levels = ref_levels([H(r) for r in raws])
+        blocks[levels[-1][0]] = (raws, levels)
+        return levels[-1][0]
+
+    la = rng.randrange(5, 10)
+    chain = link_headers([], [new_root() for _ in range(la)], 1)
+    answers, watched = {}, []
+
+    def watch(chain_, height, keep=True):
+        raws, levels = blocks[chain_[height][36:68]]
+        idx = rng.randrange(len(raws))
+        txid = wire(H(raws[idx]))
+        answers[txid] = (raws[idx].hex(), {'block_height': height, 'merkle': [wire(b) for b in ref_branch(levels, idx)],
+                                           'pos': idx})
+        if keep:
+            watched.append((txid, height))
+        return (txid, height)
+
+    for hgt in rng.sample(range(1, la), min(la - 1, rng.randrange(2, 5))):
+        watch(chain, hgt)
+    steps = [('init', list(chain)), ('sync',), ('request', list(watched))]
+    if rng.random() < 0.5:
+        steps.append(('request', rng.sample(watched, rng.randrange(1, len(watched) + 1))))
+    # the server gets ahead of the wallet: a transaction confirmed above the wallet's tip
+    k = rng.randrange(1, 3)
+    chain = link_headers(chain, [new_root() for _ in range(k)], 2)
+    ahead = watch(chain, len(chain) - rng.randrange(1, k + 1))
+    steps += [('grow', list(chain)), ('request', [ahead]), ('sync',), ('request', [ahead] + rng.sample(watched, 1))]
+    # reorganisation whose lowest replaced height is (mostly) the height of a cached, verified transaction
+    fork = rng.choice([hh for _, hh in watched]) if rng.random() < 0.75 else rng.randrange(1, len(chain))
+    extra = rng.randrange(1, 3)      # the wallet only notices a reorganisation when the server's chain is longer
+    chain = link_headers(chain[:fork], [new_root() for _ in range(len(chain) - fork + extra)], 3)
+    steps += [('switch', list(chain)), ('sync',), ('request', list(watched) + [ahead])]
+    if rng.random() < 0.6:
+        newer = watch(chain, rng.randrange(fork, len(chain)))
+        steps.append(('request', [newer] + rng.sample(watched, 1)))
+    if rng.random() < 0.5:
+        chain = link_headers(chain, [new_root() for _ in range(rng.randrange(1, 3))], 4)
+        steps += [('grow', list(chain)), ('sync',), ('request', list(watched))]
+    # one txid at most once per request
+    steps = [(st[0], list(dict.fromkeys(st[1]))) if st[0] == 'request' else st for st in steps]
+    return steps, answers
+
+
+def cache_case(run, world, model, case):
+    steps, answers = cache_scenario(case['scenario_seed'])
+    loop = world.loop
+    net = SyncNetwork()
+    net.answers = answers
+    db = Database(':memory:')
+    hd = Hd(':memory:')
+    loop.run_until_complete(hd.open())          # before the Ledger exists: Ledger.__init__ installs mainnet checkpoints
+    ledger = Ledger({'db': db, 'headers': hd, 'network': net})
+    hd.checkpoints = {}
+    loop.run_until_complete(db.open())
+    run.case(case, nontrivial=True)
+    run.count('kind:cache')
+    wallet = []                     # the chain the wallet holds according to the harness's own bookkeeping
+    mops, mexpect = [], []          # model operations and, per request op, the implementation's observation
+    sig = {'kind': 'cache', 'scenario_seed': case['scenario_seed']}
+    try:
+        for si, st in enumerate(steps):
+            if st[0] in ('init', 'grow', 'switch'):
+                net.chain = st[1]
+            elif st[0] == 'sync':
+                loop.run_until_complete(ledger.update_headers())
+                new = net.chain
+                f = 0
+                while f < len(wallet) and f < len(new) and wallet[f] == new[f]:
+                    f += 1
+                if f == len(wallet):
+                    if new[f:]:
+                        mops.append({'op': 'extend', 'headers': [x.hex() for x in new[f:]]})
+                        mexpect.append(None)
+                else:
+                    mops.append({'op': 'reorg', 'fork': f, 'headers': [x.hex() for x in new[f:]]})
+                    mexpect.append(None)
+                    run.count('cache:reorg')
+                wallet = list(new)
+                stored = [ledger.headers._read(i) for i in range(len(ledger.headers))]
+                if stored != wallet:
+                    run.disagreement('C08.cache: header list after update_headers', dict(case, step=si), len(stored), len(wallet))
+                    return
+            else:
+                req = st[1]
+                before = len(net.batches)
+
+                async def fetch():
+                    got = {}
+                    async for txs in ledger.request_transactions(tuple(req), cached=True):
+                        got.update(txs)
+                    return got
+                got = loop.run_until_complete(fetch())
+                asked = {t for b in net.batches[before:] for t in b}
+                for txid, h in req:
+                    run.count('cache:request')
+                    tx = got.get(txid)
+                    if tx is None:
+                        run.violation(dict(case, step=si), f'requested transaction {txid} not returned', signature=sig)
+                        return
+                    rawhex, merkle = answers[txid]
+                    leaf = H(tx.raw)
+                    br = [bytes.fromhex(x)[::-1] for x in merkle['merkle']]
+                    hit = txid not in asked
+
+                    def folds(height):
+                        return 0 < height < len(wallet) and ref_check(br, merkle['pos'], leaf, wallet[height][36:68])
+                    if tx.is_verified and not folds(tx.height):
+                        run.violation(dict(case, step=si, txid=txid),
+                                      f'{"cached " if hit else ""}transaction returned VERIFIED at height {tx.height}, but its '
+                                      f'proof does not lead to the Merkle root of the header the wallet now holds at that '
+                                      f'height ({len(wallet)} headers)', signature=sig)
+                        return
+                    if folds(h) and not (tx.is_verified and tx.height == h):
+                        run.violation(dict(case, step=si, txid=txid),
+                                      f'genuine proof for height {h} (header present, {len(wallet)} headers) not accepted: '
+                                      f'{"served from the cache " if hit else ""}verified={tx.is_verified} at height {tx.height}',
+                                      signature=sig)
+                        return
+                    if hit:
+                        run.count('cache:hit')
+                    mops.append({'op': 'request', 'key': txid, 'raw': rawhex, 'height': h,
+                                 'arg': {'merkle': [x.encode().hex() for x in merkle['merkle']], 'pos': merkle['pos']},
+                                 'net': {}})
+                    mexpect.append({'hit': hit, 'height': tx.height, 'position': tx.position, 'verified': tx.is_verified,
+                                    'outcome': 'tx'})
+        mod = model.call('cache_run', headers=[], ops=mops)
+        run.compare('C08.cache (request_transactions + update_headers) vs Model/C08_Cache.v', case,
+                    {'len': len(wallet), 'results': mexpect}, mod)
+    finally:
+        loop.run_until_complete(db.close())
+
+
 def dispatch_case(run, world, model, case):
     kind = case.get('kind', '')
-    if kind.startswith('connect:'):
+    if kind == 'cache':
+        cache_case(run, world, model, case)
+    elif kind.startswith('restart:'):
+        restart_case(run, world, model, case)
+    elif kind.startswith('connect:'):
         connect_case(run, world, model, case)
     elif kind.startswith('show:'):
         show_case(run, world, model, case)
@@ -1299,7 +1579,11 @@ def main(run):
         'genuine and wrong proofs mixed, incl. replies whose raw bytes are not the requested transaction (one byte '
         'altered, key and proof genuine); header stores built by the real VALIDATING Headers.connect (easy max_target, '
         'proof of work, bits, links) from a valid base plus one message [valid*k, invalid(prev|bits|pow), ...] with k '
-        'mostly in the first half, proofs offered at the prefix, the invalid header and behind it; WalletManager.get_transaction (second call site) incl. block_height <= 0. get_root_of_merkle_tree directly under SHA-256d and under a weak hash; explicit collisions from the model; '
+        'mostly in the first half, proofs offered at the prefix, the invalid header and behind it; restart: a validated header FILE gets one header\'s merkle root replaced by a forged block\'s root plus a '
+        'half-written tail, is re-opened (repair) and the forged proof offered; cache scripts: server chain / wallet sync '
+        '(real update_headers) / request_transactions(cached=True) with a transaction above the wallet tip and a '
+        'reorganisation whose lowest replaced height is mostly the height of a cached verified transaction, compared '
+        'with the state machine Model/C08_Cache.v; WalletManager.get_transaction (second call site) incl. block_height <= 0. get_root_of_merkle_tree directly under SHA-256d and under a weak hash; explicit collisions from the model; '
         'legacy claim_proofs.verify_proof on generated trie paths and 12 mutations (correspondence only). '
         'distinct = distinct case JSON; non-trivial = a proof was evaluated or an error branch taken.')
     try:
@@ -1331,6 +1615,11 @@ def main(run):
         for _ in range(vlib.scaled(run.tier, 150, 3000)):
             for case in connect_cases(rng, thorough):
                 connect_case(run, world, model, case)
+        for _ in range(vlib.scaled(run.tier, 60, 1500)):
+            for case in restart_cases(rng, thorough):
+                restart_case(run, world, model, case)
+        for _ in range(vlib.scaled(run.tier, 120, 3000)):
+            cache_case(run, world, model, {'kind': 'cache', 'scenario_seed': rng.randrange(10 ** 9)})
         for case in malformed_cases(rng, vlib.scaled(run.tier, 1500, 30000)):
             do_case(run, world, model, case)
         static_fold_checks(run, model, rng, vlib.scaled(run.tier, 1500, 30000))
@@ -1367,7 +1656,7 @@ def replay(run, case):
     try:
         if 'traceback' in case:
             run.disagreement('harness-crash', case, None, None)
-        elif case.get('kind', '').startswith(('show:', 'batch:', 'connect:')):
+        elif case.get('kind', '').startswith(('show:', 'batch:', 'connect:', 'restart:', 'cache')):
             dispatch_case(run, world, model, case)
         elif case.get('kind', '').startswith(('tree', 'static-fold', 'collision-demo', 'legacy', 'batch')):
             run.notes.append('replay of tree/static/legacy cases: rerun the tier with the same VERIF_SEED')
